@@ -266,6 +266,11 @@ class Translator:
         self.raise_sites: list[dict] = []     # explicit `raise` statements with their path conditions
         self.in_handler = 0
         self.mk_sites: list[str] = []
+        # round 5: symbolic value of every name / self attribute that holds a steps-per-epoch expression
+        self.steps_attr: dict[str, tuple] = {}
+        self.loader_sites: list[str] = []
+        self.in_steps_if = 0
+        self.cur_target = None
 
     # ---- lightning module ------------------------------------------------
     def analyse_lightning_module(self):
@@ -401,7 +406,8 @@ class Translator:
 
     # a function body in a fresh local scope
     def function(self, fn: ast.FunctionDef, ctor: bool, stack: tuple):
-        scope = {"alias": {}, "defs": {}, "copies": {}, "rank": set(), "ctor": ctor, "stack": stack, "fn": fn}
+        scope = {"alias": {}, "defs": {}, "copies": {}, "rank": set(), "ctor": ctor, "stack": stack, "fn": fn,
+                 "steps": {}, "depth0": len(self.cond_stack)}
         return self.block(fn.body, scope, top=True)
 
     def block(self, stmts, scope, top=False):
@@ -573,6 +579,9 @@ class Translator:
             if f in TRAINER_CTORS:
                 self.trainer_ctor(c, scope)
                 continue
+            if f is not None and f.split(".")[-1].endswith("DataLoader"):
+                effs.append(self.loader_ctor(c, f, scope))
+                continue
             mk = self.chunk_effects(c, f, scope)
             if mk is not None:
                 effs.append(mk)
@@ -713,6 +722,146 @@ class Translator:
         writes = self.ckpt_cb["writes"] if self.ckpt_cb is not None else ("CFalse",)
         self.ckpt_guard = self._c_and(en, writes)
         self.notes.append(f"line {c.lineno}: checkpoints are written during fit iff {pp_cond(self.ckpt_guard)}")
+
+    # ---- data loaders and their steps per epoch (round 5) ---------------------------------
+    @staticmethod
+    def _self_attr(n):
+        return n.attr if (isinstance(n, ast.Attribute) and isinstance(n.value, ast.Name) and n.value.id == "self") else None
+
+    def _steps_get(self, node, scope):
+        if isinstance(node, ast.Name):
+            return scope["steps"].get(node.id)
+        a = self._self_attr(node)
+        return self.steps_attr.get(a) if a is not None else None
+
+    def _steps_set(self, node, scope, val):
+        if isinstance(node, ast.Name):
+            scope["steps"][node.id] = val
+        else:
+            self.steps_attr[self._self_attr(node)] = val
+
+    @staticmethod
+    def _pos_const(n):
+        return isinstance(n, ast.Constant) and type(n.value) is int and n.value >= 1
+
+    def steps_of(self, node, scope):
+        """symbolic steps-per-epoch value of an expression, None when it is not one"""
+        if node is None:
+            return None
+        got = self._steps_get(node, scope) if isinstance(node, (ast.Name, ast.Attribute)) else None
+        if got is not None:
+            return got
+        if isinstance(node, ast.Attribute) and self.cfg_path(node, scope) == ("trainer_config", "steps_per_epoch"):
+            return ("StConfig",)
+        if isinstance(node, ast.BinOp) and isinstance(node.op, ast.FloorDiv) and isinstance(node.left, ast.Call) \
+                and dotted(node.left.func) == "len":
+            return ("StFloorDiv",)
+        if isinstance(node, ast.IfExp) and isinstance(node.test, ast.Compare) and len(node.test.ops) == 1 \
+                and isinstance(node.test.comparators[0], ast.Constant) and node.test.comparators[0].value == 0:
+            a, op = node.test.left, node.test.ops[0]
+            same = lambda x: ast.dump(x) == ast.dump(a)
+            inner = self.steps_of(a, scope)
+            if inner is not None:
+                if isinstance(op, (ast.NotEq, ast.Gt)) and same(node.body) and self._pos_const(node.orelse):
+                    return ("StAtLeast1", inner)
+                if isinstance(op, ast.Eq) and same(node.orelse) and self._pos_const(node.body):
+                    return ("StAtLeast1", inner)
+            return None
+        if isinstance(node, ast.Call) and dotted(node.func) == "max" and len(node.args) == 2 and not node.keywords:
+            for k, o in ((node.args[0], node.args[1]), (node.args[1], node.args[0])):
+                if self._pos_const(k) and self.steps_of(o, scope) is not None:
+                    return ("StAtLeast1", self.steps_of(o, scope))
+            return None
+        if isinstance(node, ast.Constant) and type(node.value) is int and node.value >= 0:
+            return ("StConst", node.value)
+        return None
+
+    @staticmethod
+    def pp_steps(s) -> str:
+        if s[0] == "StConst":
+            return f"(StConst {s[1]})"
+        if s[0] == "StAtLeast1":
+            return f"(StAtLeast1 {Translator.pp_steps(s[1])})"
+        if s[0] == "StIfNone":
+            return f"(StIfNone {Translator.pp_steps(s[1])} {Translator.pp_steps(s[2])})"
+        return s[0]
+
+    def steps_assign(self, st, target, value, scope):
+        """an assignment whose target holds (or starts to hold) a steps-per-epoch value"""
+        new = self.steps_of(value, scope) if value is not None else None
+        tracked = self._steps_get(target, scope) is not None
+        if new is None and not tracked:
+            return
+        if self.in_steps_if:
+            return                             # accounted for by steps_if
+        if isinstance(st, ast.AugAssign) or new is None:
+            raise Unsupported(st, "a steps-per-epoch value is re-assigned something that is not a recognised "
+                                  "steps expression")
+        if len(self.cond_stack) != scope.get("depth0", 0):
+            raise Unsupported(st, "a steps-per-epoch value is assigned under a condition other than the recognised "
+                                  "`if X is None:` / `if X == 0:` guards")
+        self._steps_set(target, scope, new)
+
+    def steps_if(self, st: ast.If, scope) -> bool:
+        """`if X is None: X = <steps>; [if X == 0: X = 1]`  and  `if X == 0: X = 1`  for a tracked X: updates the
+        symbolic value; True when the statement is such a guard (its body is then not re-interpreted)"""
+        t = st.test
+        if self.in_steps_if:
+            return False                        # inside a recognised guard: already accounted for
+        if not (isinstance(t, ast.Compare) and len(t.ops) == 1 and isinstance(t.comparators[0], ast.Constant)):
+            return False
+        x = t.left
+        cur = self._steps_get(x, scope) if isinstance(x, (ast.Name, ast.Attribute)) else None
+        if cur is None:
+            return False
+        is_x = lambda n: isinstance(n, (ast.Name, ast.Attribute)) and ast.unparse(n) == ast.unparse(x)
+
+        def floor_guard(node):      # if X == 0: X = <k >= 1>
+            return (isinstance(node, ast.If) and not node.orelse and isinstance(node.test, ast.Compare)
+                    and is_x(node.test.left) and len(node.test.ops) == 1 and isinstance(node.test.ops[0], ast.Eq)
+                    and isinstance(node.test.comparators[0], ast.Constant) and node.test.comparators[0].value == 0
+                    and len(node.body) == 1 and isinstance(node.body[0], ast.Assign) and len(node.body[0].targets) == 1
+                    and is_x(node.body[0].targets[0]) and self._pos_const(node.body[0].value))
+        if len(self.cond_stack) != scope.get("depth0", 0) or st.orelse:
+            raise Unsupported(st, "a steps-per-epoch guard with an else branch / under another condition")
+        if floor_guard(st):
+            self._steps_set(x, scope, ("StAtLeast1", cur))
+            return True
+        if isinstance(t.ops[0], ast.Is) and t.comparators[0].value is None:
+            val = None
+            for b in st.body:
+                if isinstance(b, ast.Assign) and len(b.targets) == 1 and is_x(b.targets[0]):
+                    # the right-hand side must not refer to X itself
+                    val = self.steps_of(b.value, scope)
+                    if val is None or any(is_x(n) for n in ast.walk(b.value)):
+                        raise Unsupported(b, "unrecognised default of a steps-per-epoch value")
+                elif floor_guard(b) and val is not None:
+                    val = ("StAtLeast1", val)
+                else:
+                    raise Unsupported(b, "unrecognised statement in the default block of a steps-per-epoch value")
+            if val is None:
+                raise Unsupported(st, "`if X is None:` without a default for the steps-per-epoch value X")
+            self._steps_set(x, scope, ("StIfNone", cur, val))
+            return True
+        raise Unsupported(st, "a steps-per-epoch value is tested in an unrecognised way")
+
+    def loader_ctor(self, c: ast.Call, f, scope):
+        """`self.train_data_loader / self.val_data_loader = <...>DataLoader(..., steps_per_epoch=<steps>)`"""
+        kind = {"self.train_data_loader": "LTrain", "self.val_data_loader": "LVal"}.get(self.cur_target)
+        if kind is None:
+            raise Unsupported(c, f"a data loader is built outside `self.train_data_loader = ` / `self.val_data_loader = `")
+        kw = {k.arg: k.value for k in c.keywords}
+        if None in kw:
+            raise Unsupported(c, "a data loader is built with ** arguments")
+        if "steps_per_epoch" in kw:
+            s = self.steps_of(kw["steps_per_epoch"], scope)
+            if s is None:
+                raise Unsupported(c, "steps_per_epoch of a data loader is not a recognised steps expression: "
+                                     + ast.unparse(kw["steps_per_epoch"])[:80])
+        else:
+            s = ("StDefault",)
+        self.loader_sites.append(f"line {c.lineno}: {f} -> {kind} {self.pp_steps(s)}")
+        return ("do", f"ALoader {kind} {self.pp_steps(s)}", f"{f} (line {c.lineno})")
 
     # ---- chunk files: created / read ----------------------------------------------------
     def np_chunks_cond(self, node):
@@ -955,6 +1104,9 @@ class Translator:
         for t in targets:
             flat.extend(t.elts if isinstance(t, (ast.Tuple, ast.List)) else [t])
         for t in flat:
+            if isinstance(t, ast.Name) or self._self_attr(t) is not None:
+                self.steps_assign(st, t, value, scope)
+        for t in flat:
             # (a) the configuration object itself
             if dotted(t) == "self.config":
                 # the only recognised (re)load: the verified SUPPLIED configuration, in the constructor
@@ -1040,7 +1192,11 @@ class Translator:
             if value is not None and self.exposures(value, scope):
                 raise Unsupported(st, "the key-bearing configuration is stored into an unrecognised object")
         if value is not None:
-            effs = self.call_effects(value, scope) + effs
+            self.cur_target = dotted(flat[0]) if len(flat) == 1 else None
+            try:
+                effs = self.call_effects(value, scope) + effs
+            finally:
+                self.cur_target = None
         if ckpt_name is not None and self.ckpt_cb is not None and self.ckpt_cb["name"] is None:
             self.ckpt_cb["name"] = ckpt_name
         return seq(effs)
@@ -1053,12 +1209,17 @@ class Translator:
                 and st.body[0].value.args
                 and ast.dump(st.test.func.value) in ast.dump(st.body[0].value.args[0])):
             return self.rm(st.body[0].value, scope)
+        steps_guard = self.steps_if(st, scope)
         if self._is_memory_test(st.test, scope):
             c = ("flag", "MemFallback")
         else:
             c = self.cond(st.test, scope)
         self.cond_stack.append(c)
-        th = self.block(st.body, scope)
+        self.in_steps_if += int(steps_guard)
+        try:
+            th = self.block(st.body, scope)
+        finally:
+            self.in_steps_if -= int(steps_guard)
         self.cond_stack[-1] = ("not", c)
         el = self.block(st.orelse, scope)
         self.cond_stack.pop()
@@ -1328,7 +1489,7 @@ def generate(repo: Path) -> tuple[str, dict]:
               "Definition generated : eff :=", pp(ir, 2) + ".", ""]
     for r in tr.raise_sites:
         r["opaque_src"] = [tr.opaque_src.get(n, "?") for n in r["opaque"]]
-    info = {"raise_sites": tr.raise_sites, "mk_sites": tr.mk_sites,
+    info = {"raise_sites": tr.raise_sites, "mk_sites": tr.mk_sites, "loader_sites": tr.loader_sites,
             "ckpt_guard": pp_cond(tr.ckpt_guard) if tr.ckpt_guard is not None else None,
             "paths": [".".join(p) for p in tr.paths], "path_notes": tr.path_notes, "opaque": tr.opaque_src,
             "notes": tr.notes, "assumptions": tr.assumptions, "sha": sha, "n_loops": tr.n_loop,
@@ -1372,6 +1533,10 @@ def self_test(repo: Path) -> dict:
         ("chunk clean-up ignores the memory fallback", MT, lambda s: _replace_last(
             s, 'self.data_pipeline_fw == "torch_dataset_np_chunks"\n                and self.config.data_config.delete',
             'self.config.data_config.data_pipeline_fw == "torch_dataset_np_chunks"\n                and self.config.data_config.delete')),
+        ("val loader steps unguarded", MT, lambda s: s.replace(
+            "steps_per_epoch=val_steps_per_epoch if val_steps_per_epoch != 0 else 1", "steps_per_epoch=val_steps_per_epoch")),
+        ("train loader steps unguarded", MT, lambda s: s.replace(
+            "            if self.steps_per_epoch == 0:\n                self.steps_per_epoch = 1\n", "")),
         ("final save dropped", MT, lambda s: _replace_last(
             s, 'OmegaConf.save(\n                config=self.config, f=f"{self.dir_path}/training_config.yaml"\n            )', "pass")),
     ]
